@@ -23,7 +23,7 @@ fn rle_modes(ll: u32, ofv: u32, ml: u32) -> (SeqMode, SeqMode, SeqMode) {
 }
 
 fn plain(name: &str, win_desc: u8, cks: bool, blocks: Vec<Blk>) -> FrameSpec {
-    FrameSpec { name: name.into(), win_desc: Some(win_desc), cks, dict_id: None, fcs: None, blocks, dict: vec![], rep: [1, 4, 8], dict_tables: None }
+    FrameSpec { name: name.into(), win_desc: Some(win_desc), cks, dict_id: None, fcs: None, blocks, dict: vec![], rep: [1, 4, 8], fcs_width: None, dict_tables: None }
 }
 
 /// treeless literals (type 3) in the first compressed block: must fail on a decoder without a Huffman table
@@ -88,7 +88,7 @@ pub fn frame_set(name: &str) -> Vec<FrameSpec> {
         ));
     };
     let small = |v: &mut Vec<FrameSpec>| {
-        v.push(FrameSpec { name: "single5".into(), win_desc: None, cks: false, dict_id: None, fcs: Some(5), blocks: vec![Blk::Raw(fresh(5, 7))], dict: vec![], rep: [1, 4, 8], dict_tables: None });
+        v.push(FrameSpec { name: "single5".into(), win_desc: None, cks: false, dict_id: None, fcs: Some(5), blocks: vec![Blk::Raw(fresh(5, 7))], dict: vec![], rep: [1, 4, 8], fcs_width: None, dict_tables: None });
         v.push(FrameSpec {
             name: "single40".into(),
             win_desc: None,
@@ -101,6 +101,7 @@ pub fn frame_set(name: &str) -> Vec<FrameSpec> {
             ],
             dict: vec![],
             rep: [1, 4, 8],
+            fcs_width: None,
             dict_tables: None,
         });
         // repeat offsets right at the start of a frame: content depends on the initial history (1, 4, 8)
@@ -160,7 +161,7 @@ pub fn frame_set(name: &str) -> Vec<FrameSpec> {
         "dict" => {
             let (da, db) = dict_specs();
             let with = |name: &str, d: &DictSpec, cks: bool, blocks: Vec<Blk>| FrameSpec {
-                name: name.into(), win_desc: Some(0), cks, dict_id: Some(d.id), fcs: None, blocks, dict: d.content.clone(), rep: d.rep, dict_tables: Some(d.tables.clone()),
+                name: name.into(), win_desc: Some(0), cks, dict_id: Some(d.id), fcs: None, blocks, dict: d.content.clone(), rep: d.rep, fcs_width: None, dict_tables: Some(d.tables.clone()),
             };
             let pre = (SeqMode::Predef, SeqMode::Predef, SeqMode::Predef);
             let rep3 = (SeqMode::Repeat, SeqMode::Repeat, SeqMode::Repeat);
